@@ -437,10 +437,55 @@ func (vc *VC) bindLoops() {
 				found = true
 			}
 		}
-		if !found {
-			vc.notes = append(vc.notes, fmt.Sprintf("loop spec %q not bound to any loop", ls.Key))
+		if found {
+			continue
 		}
+		// the header text of the loop was edited: bind the contract to the most similar loop that has
+		// no contract of its own, so that its obligations are still generated (under their old names)
+		// instead of silently disappearing
+		best, bestSim := -1, 0.0
+		for _, h := range vc.loopHeads {
+			l := hdrLoop[h]
+			if l == nil {
+				continue
+			}
+			if _, taken := vc.loopSpecs[h]; taken {
+				continue
+			}
+			if sim := similarity(textOf(l), ls.Key); sim > bestSim {
+				best, bestSim = h, sim
+			}
+		}
+		if best >= 0 && bestSim >= 0.7 {
+			vc.loopSpecs[best] = ls
+			vc.notes = append(vc.notes, fmt.Sprintf("loop spec %q bound to the similar loop %q", ls.Key, textOf(hdrLoop[best])))
+			continue
+		}
+		vc.notes = append(vc.notes, fmt.Sprintf("loop spec %q not bound to any loop", ls.Key))
 	}
+}
+
+// similarity: 2*LCS(a,b)/(len(a)+len(b)).
+func similarity(a, b string) float64 {
+	if len(a) == 0 || len(b) == 0 {
+		return 0
+	}
+	prev := make([]int, len(b)+1)
+	cur := make([]int, len(b)+1)
+	for i := 1; i <= len(a); i++ {
+		for j := 1; j <= len(b); j++ {
+			switch {
+			case a[i-1] == b[j-1]:
+				cur[j] = prev[j-1] + 1
+			case prev[j] >= cur[j-1]:
+				cur[j] = prev[j]
+			default:
+				cur[j] = cur[j-1]
+			}
+		}
+		prev, cur = cur, prev
+	}
+	return 2 * float64(prev[len(b)]) / float64(len(a)+len(b))
 }
 
 // namesAt resolves source variable names visible at the header of loop h to SSA values.
